@@ -3,6 +3,7 @@
   Property theorems only.
 -/
 import NPModel.Refine.Rows
+import NPModel.Refine.PackFlat
 import NPModel.Refine.Samples
 namespace NP.C02
 open NP
@@ -35,6 +36,39 @@ theorem pack_sorted_row_lengths (offs : List Nat) (vals : List α) (hm : monoton
 theorem flatten_then_pack (ls : List (List α)) :
     segs (offsetsFrom 0 (ls.map List.length)) ls.flatten = ls :=
   segs_canonical ls
+
+/-- **pack_flat groups by label, ascending, keeping the original order inside each label.**
+    `xs` are the (label, record) pairs of the flat table in their original order — in the model
+    `pack_flat` sorts `index.zipIdx`, i.e. the records are the row positions, and every column is
+    then read through the same sorted positions, so whole records stay together.
+    For every packed row `(k, l)`: `l` is exactly the subsequence of records labelled `k` in the
+    ORIGINAL table; the packed rows are the non-empty label groups in ascending label order and
+    the packed index lists their (pairwise distinct) labels. -/
+theorem pack_flat_groups_by_label (xs : List (Label × α)) (k : Label) (l : List α)
+    (hm : (k, l) ∈ toRuns (sortedByLabel xs)) :
+    let s := sortedByLabel xs
+    l = valsOfLabel k (xs.map (·.1)) (xs.map (·.2)) ∧
+    segs (packOffsets (s.map (·.1))) (s.map (·.2)) = (nonemptyRuns (toRuns s)).map (·.2) ∧
+    ((packOffsets (s.map (·.1))).dropLast).map (fun o => (s.map (·.1)).getD o k) = (nonemptyRuns (toRuns s)).map (·.1) :=
+  packFlat_rows xs k l hm
+
+/-- flattening the packed column gives back the stably sorted table: the packed rows, concatenated,
+    are the sorted records — nothing lost, duplicated or invented (and the sorted table is a
+    permutation of the original). -/
+theorem pack_flat_then_flatten (xs : List (Label × α)) :
+    let s := sortedByLabel xs
+    (segs (packOffsets (s.map (·.1))) (s.map (·.2))).flatten = s.map (·.2) ∧ s.Perm xs := by
+  intro s
+  have hd : ((toRuns s).map (·.1)).Pairwise (· ≠ ·) :=
+    List.Pairwise.imp (fun h => h.2) (packFlat_index_strictly_ascending xs)
+  have ⟨e1, e2⟩ := toRuns_labels_vals s
+  refine ⟨?_, sortedByLabel_perm xs⟩
+  rw [← e1, ← e2, packed_rows_are_runs _ hd, ← runVals_nonempty]
+
+/-- the labels of the packed column are distinct and ascending -/
+theorem pack_flat_labels_strictly_ascending (xs : List (Label × α)) :
+    ((toRuns (sortedByLabel xs)).map (·.1)).Pairwise (fun a b => a.le b = true ∧ a ≠ b) :=
+  packFlat_index_strictly_ascending xs
 
 example : (PList.ofRows [some [1, 2], none, some [], some [3]]).rows = [some [1, 2], none, some [], some [3]] := by
   decide
